@@ -85,6 +85,11 @@ func TestKinds(t *testing.T) {
 				if vv[0].Err != "" || vv[0].DocModified != "false" || vv[0].Status == "invalid" {
 					t.Fatalf("seam: untampered document not reported unmodified: %s", vv[0])
 				}
+				// Exact verdict offline: trust path resolves to the injected root, revocation cannot conclude.
+				const offlineReason = "signer's certificate revocation status is unknown"
+				if vv[0].Status != "unknown" || vv[0].Reason != offlineReason {
+					t.Fatalf("seam: unexpected verdict: %s", vv[0])
+				}
 				if vv[0].SubFilter != kind || vv[0].Field != "Signature1" || vv[0].ObjNr != s.ObjNr {
 					t.Fatalf("seam: wrong identification: %s", vv[0])
 				}
@@ -123,7 +128,7 @@ func TestKinds(t *testing.T) {
 				if kind == RFC3161 {
 					wantAPI = "false"
 				}
-				if len(av) != 1 || av[0].DocModified != wantAPI || av[0].Status == "invalid" {
+				if len(av) != 1 || av[0].DocModified != wantAPI || av[0].Status != "unknown" || av[0].Reason != offlineReason {
 					t.Fatalf("API: untampered document: want DocModified=%s, got %v", wantAPI, av)
 				}
 				for ri, m := range d.Mutable {
@@ -248,6 +253,26 @@ func TestResign(t *testing.T) {
 				t.Logf("API  shrunk ByteRange %v + resign: %s", br, av[0])
 			}
 		})
+	}
+}
+
+// TestAppendAfterEOF logs (does not judge) what pdfcpu says when bytes are appended after the signed revision
+// without any xref section: the signature value still verifies, only a revision boundary check could object.
+func TestAppendAfterEOF(t *testing.T) {
+	for _, kind := range Kinds {
+		d := build(t, Options{SubFilter: kind})
+		b := append(append([]byte(nil), d.Bytes...), []byte("% appended after the signed revision\n")...)
+		sv := seam(t, b)
+		t.Logf("SEAM %s + appended comment: %s", kind, sv[0])
+		if sv[0].DocModified != "false" {
+			t.Fatalf("seam: signed ranges untouched, yet: %s", sv[0])
+		}
+		av, err := ValidateAPI(b)
+		if err != nil {
+			t.Logf("API  %s + appended comment: error %v", kind, err)
+			continue
+		}
+		t.Logf("API  %s + appended comment: %s", kind, av[0])
 	}
 }
 
